@@ -15,16 +15,18 @@ if ! git apply --check "$SD/patch.diff" 2>/dev/null; then echo '{"applies": fals
 git apply "$SD/patch.diff"
 DEMO=$(ls "$SD"/*.rs | head -1)
 TNAME=seed_demo_$(echo $NAME | tr '-' '_' | tr 'A-Z' 'a-z')
+# a demo that drives a connection needs the hook feature (meta.json demo_cmd mentions it)
+FEAT=""; grep -q -- "--features verif-hooks" "$SD/meta.json" 2>/dev/null && FEAT="--features verif-hooks"
 # 1. suite with the change (demo not yet present)
 cargo test --offline --workspace --no-fail-fast > suite.log 2>&1
 SUITE_FAIL=$(grep -E "^test result: FAILED|error(\[|:)" suite.log | wc -l)
 SUITE_PASS=$(grep -E "^test result: ok" suite.log | sed -E 's/.* ([0-9]+) passed.*/\1/' | paste -sd+ | bc)
 # 2. demo with the change
 cp "$DEMO" tests/$TNAME.rs
-cargo test --offline --test $TNAME > demo_with.log 2>&1; DW=$?
+cargo test --offline $FEAT --test $TNAME > demo_with.log 2>&1; DW=$?
 # 3. demo without the change
 git apply -R "$SD/patch.diff"
-cargo test --offline --test $TNAME > demo_without.log 2>&1; DWO=$?
+cargo test --offline $FEAT --test $TNAME > demo_without.log 2>&1; DWO=$?
 python3 - <<PY > "$OUT"
 import json
 print(json.dumps({"applies": True, "repo_head": "$(git -C /repo rev-parse --short HEAD)", "suite_with_change": {"passed": int("${SUITE_PASS:-0}" or 0), "failure_lines": int("$SUITE_FAIL")},
